@@ -75,7 +75,9 @@ func TestC18Exhaustive(t *testing.T) {
 	//  * a pair with a non-resettable source is run only with programs whose first r is their last letter: the
 	//    wrapper delegates every call, so without r it behaves like the slice source, and the case ends at the
 	//    first (refused) Reset;
-	//  * the inputs after a re-Init are the swapped pair (B,A) and, as a second variant, two empty inputs.
+	//  * the inputs after a re-Init are the swapped pair (B,A) and, as a second variant, two empty inputs;
+	//  * an empty input is served from an empty non-nil slice and from a nil slice (per side; the two-empty
+	//    re-Init variant only as both non-nil / both nil).
 	type part struct{ maxLen, depth4, depth3, needLen int }
 	parts := []part{{3, vstat.Pick(4, 5), vstat.Pick(5, 7), 0}}
 	if vstat.Thorough() {
@@ -111,13 +113,32 @@ func TestC18Exhaustive(t *testing.T) {
 						if variant == 0 {
 							a2, b2 = b, a
 						}
-						for _, sel := range Selectors {
-							for _, k := range kinds {
-								c := Case{A: a, B: b, A2: a2, B2: b2, KA: k[0], KB: k[1], Sel: sel, Prog: prog}
-								info, v := Run(c)
-								st.Report(t, "TestC18Exhaustive", c, v)
-								record(c, info)
-								n++
+						// flavours of an empty input: empty non-nil slice / nil slice, per side where the side has
+						// an empty input (for the two-empty re-Init variant: both non-nil or both nil)
+						flavours := [][2]bool{{false, false}}
+						switch {
+						case variant == 1:
+							flavours = append(flavours, [2]bool{true, true})
+						case len(a) == 0 && len(b) == 0:
+							flavours = append(flavours, [2]bool{true, false}, [2]bool{false, true}, [2]bool{true, true})
+						case len(a) == 0:
+							flavours = append(flavours, [2]bool{true, false})
+						case len(b) == 0:
+							flavours = append(flavours, [2]bool{false, true})
+						}
+						for fi, fl := range flavours {
+							sels := Selectors
+							if variant == 1 && fi > 0 {
+								sels = []string{"le"} // the new inputs are empty: one selector is enough for the nil flavour
+							}
+							for _, sel := range sels {
+								for _, k := range kinds {
+									c := Case{A: a, B: b, A2: a2, B2: b2, NilA: fl[0], NilB: fl[1], KA: k[0], KB: k[1], Sel: sel, Prog: prog}
+									info, v := Run(c)
+									st.Report(t, "TestC18Exhaustive", c, v)
+									record(c, info)
+									n++
+								}
 							}
 						}
 					}
@@ -144,7 +165,15 @@ func genSeq(t *rapid.T, label string, sel string) []int {
 		n = rapid.IntRange(0, 40).Draw(t, label+"Len")
 	}
 	alpha := rapid.SampledFrom([]int{1, 2, 3, 3, 6, 20}).Draw(t, label+"Alpha")
-	s := rapid.SliceOfN(rapid.IntRange(1, alpha), n, n).Draw(t, label)
+	valGen := rapid.IntRange(1, alpha)
+	switch rapid.IntRange(0, 19).Draw(t, label+"Shape") {
+	case 0: // very long input
+		n = rapid.IntRange(500, 3000).Draw(t, label+"LongLen")
+		valGen = rapid.IntRange(1, rapid.SampledFrom([]int{3, 50, 100000}).Draw(t, label+"LongAlpha"))
+	case 1: // negative, zero and extreme values
+		valGen = rapid.OneOf(rapid.IntRange(-3, 3), rapid.SampledFrom([]int{-(1 << 42) + 1, -(1 << 31) - 1, -(1 << 31), -1, 0, 1, 1<<31 - 1, 1 << 31, 1<<42 - 1}))
+	}
+	s := rapid.SliceOfN(valGen, n, n).Draw(t, label)
 	if rapid.IntRange(0, 9).Draw(t, label+"Sorted") < 6 {
 		sort.Ints(s)
 		if sel == "gt" {
@@ -163,11 +192,18 @@ func genCase(t *rapid.T) Case {
 	c.KA = kinds.Draw(t, "ka")
 	c.KB = kinds.Draw(t, "kb")
 	c.A = genSeq(t, "a", c.Sel)
-	c.B = genSeq(t, "b", c.Sel)
+	c.NilA = rapid.Bool().Draw(t, "nilA")
+	c.NilB = rapid.Bool().Draw(t, "nilB")
+	c.Shared = rapid.IntRange(0, 19).Draw(t, "shared") == 0
+	if !c.Shared {
+		c.B = genSeq(t, "b", c.Sel)
+	}
 	initW := rapid.SampledFrom([]int{0, 1, 1, 3}).Draw(t, "initWeight")
 	if initW > 0 {
 		c.A2 = genSeq(t, "a2", c.Sel)
-		c.B2 = genSeq(t, "b2", c.Sel)
+		if !c.Shared {
+			c.B2 = genSeq(t, "b2", c.Sel)
+		}
 	}
 	resetW := rapid.SampledFrom([]int{0, 1, 3}).Draw(t, "resetWeight")
 	call := rapid.Custom(func(t *rapid.T) byte {
